@@ -5,7 +5,7 @@
 (*   neg      p := -p        scale(c)  p := p.scale(c)        pow(n)  p := p ** n        rot   (p, q, r) := (q, r, p)                     *)
 (*   laws(c)  observation: both sides of every ring law on (p, q, r) and the scalar c                                               *)
 (* Init: (p, q, r) ranges over InitP x InitQ x InitR; with InitP = ALL polynomials of <= MaxMono monomials over the atoms x, y with     *)
-(* powers in {-1, 1/2, 1, 2} (0 = absent) and coefficients in Coefs this is the universe of the statement.  TLC explores all histories  *)
+(* powers in {-1, 1/2, 1, 2} (0 = absent) and coefficients in CoefSet this is the universe of the statement.  TLC explores all histories  *)
 (* of <= MaxOps actions (results of more than MaxSize monomials or with a number beyond TLC's integers are cut) and, with Record,       *)
 (* prints every behaviour for replay in the real code.                                                                            *)
 (* Invariants (on the reference; the T specification applies the same clauses to what the code answers):                           *)
@@ -13,8 +13,8 @@
 (*   EvalCommutes     the value of the result at four rational points is the value of the operation on the values of the operands     *)
 (*                    (an independent semantics: the ring operations of X03_Defs are checked against evaluation)                     *)
 (*   RingLaws         every law of X03_Defs.LawSides holds on (p, q, r)                                                               *)
-EXTENDS X03_Defs, Json
-CONSTANTS MaxMono, MaxOps, MaxSize, InitP, InitQ, InitR, Gens, Scalars, Kinds, Record, EmitAll
+EXTENDS X03_Machines, Json
+CONSTANTS MaxMono, CoefSet, MaxOps, MaxSize, InitP, InitQ, InitR, Gens, Scalars, Kinds, Record, EmitAll
 VARIABLES p, q, r, ops, hist, done, prev, init0
 vars == <<p, q, r, ops, hist, done, prev, init0>>
 
@@ -23,10 +23,11 @@ Half == <<1, 2>>   MinusOne == <<0 - 1, 1>>   Two == <<2, 1>>
 PowSet == { MinusOne, Half, ROne, Two }
 MkMono(px, py) == { f \in { <<"x", px>>, <<"y", py>> } : f[2] # RZero }
 MonoU == { MkMono(px, py) : px \in PowSet \cup {RZero}, py \in PowSet \cup {RZero} }
-Coefs == { MinusOne, Half, Two }
+Coefs3 == { MinusOne, Half, Two }
+Coefs2 == { MinusOne, Half }
 RECURSIVE Polys(_)
 Polys(k) == IF k = 0 THEN { {} }
-            ELSE LET S == Polys(k - 1) IN S \cup UNION { { s \cup { <<m, c>> } : m \in MonoU \ Monos(s), c \in Coefs } : s \in S }
+            ELSE LET S == Polys(k - 1) IN S \cup UNION { { s \cup { <<m, c>> } : m \in MonoU \ Monos(s), c \in CoefSet } : s \in S }
 X == PAtom1("x", ROne)   Y == PAtom1("y", ROne)
 One == PConst(ROne)
 XInv == PAtom1("x", MinusOne)   SqrtX == PAtom1("x", Half)   SqrtY == PAtom1("y", Half)
@@ -43,29 +44,32 @@ GensSmall == { X, Y, One, PConst(Half), XInv, SqrtX, PAdd(X, Y), PAdd(PScale(XY,
 GensInt == { X, Y, One, PConst(Half), XInv, PAdd(X, Y), PAdd(PScale(XY, Two), PConst(MinusOne)) }
 ScalarsSmall == { RZero, MinusOne, Half, <<3, 1>> }
 ScalarsOne == { Half }
-KindsAll == {"load", "add", "sub", "mul", "neg", "scale", "pow", "rot", "laws"}
-KindsOps == {"load", "add", "sub", "mul", "neg", "scale", "pow", "rot"}
+KindsAll == {"load", "add", "sub", "mul", "neg", "scale", "pow", "rot", "laws", "hash"}
+KindsOps == {"load", "add", "sub", "mul", "neg", "scale", "pow", "rot", "hash"}
 KindsLaws == {"laws"}
+QOne == { PAdd(XInv, PNeg(Y)) }
 
-\* ------------------------------------------------------------------ the machine
-Op(k, g, c, n) == [k |-> k, g |-> g, c |-> c, n |-> n]
+\* ------------------------------------------------------------------ the machine (the registers hold VALUES; X03_Machines.PoNextV)
+Here == PSt(p, q, r)
 Fits(v) == Cardinality(v) <= MaxSize /\ ~PHasOvf(v)
 Init == /\ p \in InitP /\ q \in InitQ /\ r \in InitR /\ ops = 0 /\ hist = <<>> /\ done = FALSE
         /\ prev = [k |-> "init", p |-> p, q |-> q, c |-> RZero, n |-> 0] /\ init0 = <<p, q, r>>
 \* prev: the operation just performed with the operands it read (ghost, for EvalCommutes)
-Step(op, p1, q1, r1) == /\ Fits(p1) /\ p' = p1 /\ q' = q1 /\ r' = r1 /\ ops' = ops + 1 /\ UNCHANGED <<done, init0>>
-                        /\ prev' = [k |-> op.k, p |-> p, q |-> q, c |-> op.c, n |-> op.n]
-                        /\ hist' = IF Record THEN Append(hist, [op EXCEPT !.g = PSeq(op.g)]) ELSE hist
-Load(g) == g # q /\ Step(Op("load", g, RZero, 0), p, g, r)
-Add == Step(Op("add", {}, RZero, 0), PAdd(p, q), q, r)
-Sub == Step(Op("sub", {}, RZero, 0), PSub(p, q), q, r)
-Mul == Step(Op("mul", {}, RZero, 0), PMul(p, q), q, r)
-NegP == Step(Op("neg", {}, RZero, 0), PNeg(p), q, r)
-Scale(c) == Step(Op("scale", {}, c, 0), PScale(p, c), q, r)
-Pow(n) == Step(Op("pow", {}, RZero, n), PPow(p, n), q, r)
-Rot == <<p, q, r>> # <<q, r, p>> /\ Step(Op("rot", {}, RZero, 0), q, r, p)
-Laws(c) == Step(Op("laws", {}, c, 0), p, q, r)
-Finish == /\ Record /\ ~done /\ (IF EmitAll THEN TRUE ELSE ops = MaxOps) /\ done' = TRUE
+Step(op) == LET n == PoNextV(Here, op) IN
+            /\ Fits(n.p) /\ p' = n.p /\ q' = n.q /\ r' = n.r /\ ops' = ops + 1 /\ UNCHANGED <<done, init0>>
+            /\ prev' = [k |-> op.k, p |-> p, q |-> q, c |-> op.c, n |-> op.n]
+            /\ hist' = IF Record THEN Append(hist, op) ELSE hist
+Load(g) == g # q /\ Step(POp("load", PSeq(g), RZero, 0))
+Add == Step(POp("add", <<>>, RZero, 0))
+Sub == Step(POp("sub", <<>>, RZero, 0))
+Mul == Step(POp("mul", <<>>, RZero, 0))
+NegP == Step(POp("neg", <<>>, RZero, 0))
+Scale(c) == Step(POp("scale", <<>>, c, 0))
+Pow(n) == Step(POp("pow", <<>>, RZero, n))
+Rot == <<p, q, r>> # <<q, r, p>> /\ Step(POp("rot", <<>>, RZero, 0))
+Laws(c) == Step(POp("laws", <<>>, c, 0))
+Hash == Step(POp("hash", <<>>, RZero, 0))
+Finish == /\ Record /\ ~done /\ (IF EmitAll THEN ops >= 1 ELSE ops = MaxOps) /\ done' = TRUE
           /\ PrintT(<<"X03P", ToJson([init |-> [p |-> PSeq(init0[1]), q |-> PSeq(init0[2]), r |-> PSeq(init0[3])],
                                       steps |-> hist, log |-> IF EmitAll THEN "last" ELSE "all"])>>)
           /\ UNCHANGED <<p, q, r, ops, hist, prev, init0>>
@@ -79,21 +83,17 @@ Act == /\ ~done /\ ops < MaxOps
           \/ "pow" \in Kinds /\ \E n \in 0..3 : Pow(n)
           \/ "rot" \in Kinds /\ Rot
           \/ "laws" \in Kinds /\ \E c \in Scalars : Laws(c)
+          \/ "hash" \in Kinds /\ prev.k # "hash" /\ Hash
 Next == Act \/ Finish
 Spec == Init /\ [][Next]_vars
 
 \* ------------------------------------------------------------------ the statement
 NormalForm == PNF(p) /\ PNF(q) /\ PNF(r)
-\* the value of an operation on values (rationals), ROvf when a value is not representable
-OnValues(k, a, b, c, n) ==
-  CASE k = "add" -> RAdd(a, b) [] k = "sub" -> RSub(a, b) [] k = "mul" -> RMul(a, b) [] k = "neg" -> RNeg(a)
-    [] k = "scale" -> RMul(c, a) [] k = "pow" -> RPow(a, n) [] OTHER -> a
-EvalCommutesAt(pt) ==
-  LET a == EvalP(prev.p, pt) b == EvalP(prev.q, pt) v == OnValues(prev.k, a, b, prev.c, prev.n) w == EvalP(p, pt) IN
-  RIsOvf(a) \/ RIsOvf(b) \/ RIsOvf(v) \/ RIsOvf(w) \/ v = w
-EvalCommutes == prev.k \in {"add", "sub", "mul", "neg", "scale", "pow"} => \A pt \in Points : EvalCommutesAt(pt)
+EvalCommutes == prev.k \in Arith => \A pt \in Points : EvalCommutesAt(prev.k, prev.p, prev.q, prev.c, prev.n, p, pt)
 \* the evaluation is not vacuous: on the small values of the universe it is defined at every point
 EvalDefined == (ops = 0 /\ Cardinality(p) <= 3) => \A pt \in Points : ~RIsOvf(EvalP(p, pt))
 LawOK(nm, c) == LET s == LawSides(nm, p, q, r, c) IN PHasOvf(s[1]) \/ PHasOvf(s[2]) \/ (s[1] = s[2] /\ PNF(s[1]))
 RingLaws == prev.k = "laws" => \A i \in 1..Len(LawNames) : LawOK(LawNames[i], prev.c)
+\* the sequence handed to the code is a normal form in the module's own order and denotes the value
+SeqDenotes == ops <= 1 => (LET s == PSeq(p) IN PAbs(s) = p /\ NFSeq(s) /\ SortedSeq(s))
 =============================================================================
